@@ -3,7 +3,9 @@
 A victim connection and one or two sibling connections live inside the REAL loop generators:
 of_01.OpenFlow_01_Task.run() (accept / read / close / except logic, of_01.socket shimmed) and
 ioworker.RecocoIOLoop.run() (real RecocoIOWorkers on fake sockets, OFConnection + SoftwareSwitch behind
-them).  The victim's stream is valid traffic with corruptions; the siblings' streams are valid.
+them).  The victim's stream is valid traffic with corruptions; the siblings' streams are valid.  Optionally the victim's
+socket also fails (fault sequences): sends fail or would block once a reply is owed, and the peer hangs up, resets
+or keeps talking, reported by select in the same wake-up or in successive ones.
 
 Oracle, clause by clause (DESIGN.md section 4, C10):
  (i)   every wake-up of the loop returns within a deterministic line budget (sys.monitoring LINE events);
@@ -41,8 +43,10 @@ LEVEL_TEXT = ("Fault enumeration: for representative (thorough: all) message typ
 LEVEL_NOTE = ("non-termination is observed as exceeding a line budget of 200000 + 400 lines per pending byte per loop wake-up "
               "(>= 10x the worst valid traffic measured: 40 lines/byte); the loops are driven by hand with the set of readable "
               "sockets a select() would report, not by the recoco scheduler; real sockets are replaced by scripted fakes")
-RULE = ("a case is (side, victim item list with corruption ops, 1-2 sibling message lists, order of connections, segmentation, EOF flag); "
-        "non-trivial when the victim stream differs from well-formed traffic, at least one intact valid message follows the first "
+RULE = ("a case is (side, victim item list with corruption ops, 1-2 sibling message lists, order of connections, segmentation, EOF flag, "
+        "optional socket fault script {peer: silent/more data/EOF/reset/timeout} x {send: ok/EAGAIN/EPIPE/ECONNRESET} x {same wake-up, "
+        "recv first, send first} applied after a chosen chunk); "
+        "non-trivial when a fault script hits a victim that owes a reply, or when the victim stream differs from well-formed traffic, at least one intact valid message follows the first "
         "corrupted item, and a sibling still has undelivered traffic when the corrupted bytes are processed (siblings always get a "
         "second chunk and a probe after the victim's last bytes); distinct by SHA-1 of the canonical JSON of the case")
 ASSUMPTIONS = [
@@ -61,7 +65,10 @@ EXHAUSTIVE_SCOPE = {
            "2 of the 6 position/order combinations; every embedded length field (action len, actions_len, flow-stats entry length) at "
            "0..value+8, 0x7fff, 0x8000, 0xffff with rotating position/order; every truncation length of the target followed by EOF and "
            "followed by more valid traffic; every truncation point of a 5-message stream followed by EOF. Half of the scenarios deliver "
-           "the corrupted header split across two reads or separately from its body.",
+           "the corrupted header split across two reads or separately from its body. Socket fault grid: a victim that owes a reply "
+           "(switch: BAD_TYPE error, BAD_LEN error, echo reply, features reply; controller: echo reply, features request) x peer "
+           "{silent, more data, EOF, ECONNRESET, ETIMEDOUT} x send {ok, EAGAIN, EPIPE, ECONNRESET} x {reported in the same wake-up, "
+           "recv first, send first} x victim first/last x 1-2 siblings.",
   "thorough": "the same for every message type of each direction (all stats kinds, queue properties) and for the 9 types of the "
               "opposite direction arriving at the wrong side",
 }
